@@ -147,6 +147,30 @@ pub fn generate(kind: &str, thorough: bool, seed: u64, corpus: &str, out: &mut O
                 out.schema(&si);
                 for t in random_docs(&si, &mut rng, 40, 4) { trace_case(&si, &t, out); }
             }
+            // root types named by the schema block while other object types carry the default root names
+            {
+                let si = gen::SchemaInfo::new("decoy-roots", &format!("{}{}", schemas::PRELUDE, schemas::DECOY));
+                out.schema(&si);
+                for t in ["mutation { renew(id: \"1\", months: 2) { id plan } cancel(id: \"2\") }", "subscription { renewed(id: \"1\") { id renew } }", "subscription S { expired { plan } }",
+                          "{ a subscription { id } mutation { note } query { zz } }", "mutation { id note }", "subscription { id plan }", "mutation M { ...F } fragment F on BillingMutations { cancel(id: 1) }",
+                          "subscription { ...G } fragment G on Subscription { id }", "mutation { ... on Mutation { note } ... on BillingMutations { cancel(id: \"3\") } }"] {
+                    trace_case(&si, t, out);
+                }
+            }
+            // literals nested deeper than any fixed bound one might pick (the parser allows about fifty brackets)
+            {
+                let si = gen::SchemaInfo::new("deep-values", &format!("{}{}", schemas::PRELUDE, "input Rec { n: Rec  l: [Rec]  v: Int }\nscalar Any\ntype Query { f(r: Rec, a: Any, ll: [[[[Int]]]]): Int }"));
+                out.schema(&si);
+                for depth in [8usize, 20, 31, 32, 33, 34, 40] {
+                    let list = format!("{}1{}", "[".repeat(depth), "]".repeat(depth));
+                    let obj = format!("{}{{v: 1}}{}", "{n: ".repeat(depth), "}".repeat(depth));
+                    let mixed = format!("{}[{{v: $v}}]{}", "{l: [{n: ".repeat(depth / 3), "}]}".repeat(depth / 3));
+                    for t in [format!("{{ f(a: {}) }}", list), format!("{{ f(ll: {}) }}", list), format!("{{ f(r: {}) }}", obj), format!("query ($v: Int) {{ f(r: {}) }}", mixed),
+                              format!("query ($x: Any = {}) {{ f(a: $x) }}", list), format!("{{ f @skip(if: {}) }}", list)] {
+                        trace_case(&si, &t, out);
+                    }
+                }
+            }
             // object and list literals written directly at positions whose expected type wraps an input object in 0..3 list levels
             // (input coercion of a single value to a list): the expected types of the members must not depend on the wrappers
             {
@@ -200,6 +224,17 @@ pub fn generate(kind: &str, thorough: bool, seed: u64, corpus: &str, out: &mut O
                 out.schema(&si);
                 for t in random_docs(&si, &mut rng, 40, 4) { crate::valcases::validate_case(&si, &t, &tmp, out); }
             }
+            // many errors of two rules in one document (the result is the in-order union whatever its size)
+            {
+                let si = gen::SchemaInfo::new("nothing-many", &format!("{}{}", schemas::PRELUDE, schemas::NOTHING));
+                out.schema(&si);
+                for n in [30usize, 70, 120] {
+                    let fields: String = (0..n).map(|i| format!(" u{}", i)).collect();
+                    let spreads: String = (0..n).map(|i| format!(" ...N{}", i)).collect();
+                    crate::valcases::validate_case(&si, &format!("{{{}{} }}", fields, spreads), &tmp, out);
+                    crate::valcases::validate_case(&si, &format!("{{ zzz{} }} query B {{ zzz(a: 1, b: 2){} }}", spreads, fields), &tmp, out);
+                }
+            }
             // documents where one rule's subject is another rule's lookup: fragments that are unused AND spread (by other
             // unused fragments, by themselves, at impossible positions), unknown and duplicated fragments and types next to uses of them
             let si = gen::SchemaInfo::new("frags", &frags_sdl());
@@ -241,6 +276,18 @@ pub fn generate(kind: &str, thorough: bool, seed: u64, corpus: &str, out: &mut O
             let fork = std::env::var("VERIF_FORK_EXE").ok();
             let mut sis = pool();
             for i in 0..(3 * scale) { sis.push(gen::SchemaInfo::new(&format!("random{}", i), &gen::random_schema(&mut rng))); }
+            // large schemas built one after the other in one place (a cache keyed by where a schema lives, or by how many definitions
+            // it has, must not carry answers from one schema to the next)
+            for round in 0..4usize {
+                let mut sdl = String::from(schemas::PRELUDE);
+                for i in 0..70usize { sdl.push_str(&format!("type T{} {{ a: Int  next: T{} }}\n", i, (i + 1) % 70)); }
+                sdl.push_str(if round % 2 == 0 { "type Article { a: Int }\ntype Query { t: T0  x: Article }\n" } else { "type Post { a: Int }\ntype Query { t: T0  x: Post }\n" });
+                let si = gen::SchemaInfo::new(&format!("large{}", round), &sdl);
+                out.schema(&si);
+                let texts: Vec<String> = ["{ t { a next { a } } x { a } }", "{ x { ...F } } fragment F on Post { a }", "{ x { ...F } } fragment F on Article { a }", "{ x { ... on Post { a } ... on Article { a } } }",
+                                          "query ($v: Post) { t { a } }", "{ t { ... on T69 { a } ... on T70 { a } } }"].iter().map(|t| t.to_string()).collect();
+                crate::purity::batch(&si, &texts, &tmp, fork.as_deref(), out);
+            }
             for si in &sis {
                 out.schema(si);
                 let mut texts = corpus_docs(corpus, &si.name);
@@ -270,6 +317,14 @@ pub fn generate(kind: &str, thorough: bool, seed: u64, corpus: &str, out: &mut O
             for (i, b) in bodies.iter().enumerate() {
                 let text = match i % 3 { 0 => format!("{} fragment F on T {{ a zz }}", b), 1 => format!("subscription {} fragment F on I {{ t }}", b), _ => format!("query Q {} fragment F on U {{ __typename a }}", b) };
                 crate::valcases::rules_case(&si, &text, &rules, &tmp, out);
+            }
+            {
+                let si = gen::SchemaInfo::new("decoy-roots", &format!("{}{}", schemas::PRELUDE, schemas::DECOY));
+                out.schema(&si);
+                for t in ["mutation { renew(id: \"1\") { id plan } cancel(id: \"2\") }", "mutation { id note }", "subscription { renewed { id renew } }", "subscription { id plan }",
+                          "mutation { renew(id: 1) } subscription S { expired { nope } }", "{ a zz subscription { id } }", "subscription { __typename }", "mutation { ... on BillingMutations { cancel(id: 1) note } }"] {
+                    crate::valcases::rules_case(&si, t, &rules, &tmp, out);
+                }
             }
             for si in pool() {
                 out.schema(&si);
@@ -843,6 +898,18 @@ pub fn generate(kind: &str, thorough: bool, seed: u64, corpus: &str, out: &mut O
                     }
                 }
             }
+            // type names that collide when two are concatenated: a verdict remembered for one pair must not answer for the other
+            {
+                let si = gen::SchemaInfo::new("concat-names", &format!("{}{}", schemas::PRELUDE, schemas::CONCAT));
+                out.schema(&si);
+                let a = "node { ... on ListItem { v } }"; let b = "list { ... on Item { id } }";
+                let c = "node { ...FL }"; let dd = "list { ...FI }";
+                let frs = " fragment FL on ListItem { v } fragment FI on Item { id }";
+                for (x, y) in [(a, b), (b, a), (c, dd), (dd, c), (a, dd), (dd, a), (b, c), (c, b)] {
+                    crate::valcases::rules_case(&si, &format!("{{ {} {} }}{}", x, y, if x.contains("...F") || y.contains("...F") { frs } else { "" }), &rules, &tmp, out);
+                    crate::valcases::rules_case(&si, &format!("query A {{ {} }} query B {{ {} }}{}", x, y, if x.contains("...F") || y.contains("...F") { frs } else { "" }), &rules, &tmp, out);
+                }
+            }
             for si in pool() {
                 out.schema(&si);
                 for t in corpus_docs(corpus, &si.name) { crate::valcases::rules_case(&si, &t, &rules, &tmp, out); }
@@ -1140,6 +1207,9 @@ pub fn generate(kind: &str, thorough: bool, seed: u64, corpus: &str, out: &mut O
                 for t in docs.iter() { crate::valcases::rules_case(&si, t, &rules, &tmp, out); }
             }
             for a in dl.iter() {
+                for t in [format!("{{ plain @tsOnly{} }}", a), format!("query @tsOnly{} {{ plain @mixed{} }}", a, a.replace("x", "y")), format!("{{ ... @tsOnly{} {{ plain }} ...F @mixed }} fragment F on Query @tsOnly {{ plain }}", a)] {
+                    crate::valcases::rules_case(&si, &t, &rules, &tmp, out);
+                }
                 let docs = [
                     format!("{{ f(i: 1, r: 1) @dir{} }}", a), format!("query @dir{} {{ plain }}", a),
                     format!("{{ ...F @dir{} }} fragment F on Query @dir{} {{ plain }}", a, a),
@@ -1187,7 +1257,8 @@ pub fn generate(kind: &str, thorough: bool, seed: u64, corpus: &str, out: &mut O
             let ops = ["{ a }", "query { a }", "query A { a }", "query B { a }", "mutation A { m }", "mutation { m }", "subscription A { s1 }", "subscription { s1 s2 }"];
             let maxn = if thorough { 4 } else { 3 };
             let partial = gen::SchemaInfo::new("partial-roots", &format!("{}{}", schemas::PRELUDE, "schema { query: Query } type Query { a: Int } type Mutation { m: Int } type Subscription { s1: Int s2: Int }"));
-            for si in [&implicit, &explicit, &nosub, &partial] {
+            let decoy = gen::SchemaInfo::new("decoy-roots", &format!("{}{}", schemas::PRELUDE, "schema { query: Q subscription: Events } type Q { a: Int } type Events { s1: Int s2: Int } type Subscription { s1: Int s2: Int s3: Int } type Query { zz: Int }"));
+            for si in [&implicit, &explicit, &nosub, &partial, &decoy] {
                 out.schema(si);
                 let mut cur: Vec<Vec<&str>> = vec![vec![]];
                 for _ in 0..maxn {
